@@ -1,5 +1,5 @@
 (* Properties_C02.v — expressions evaluate to the documented value and type. *)
-From PE2 Require Import Parser Eval Lemmas_Expr.
+From PE2 Require Import Parser Eval Lemmas_Expr Run Lemmas_OpStates.
 Local Open Scope Z_scope.
 
 (* + - * on INTEGER operands are exact 64-bit integer arithmetic (never routed through REAL) *)
@@ -76,3 +76,24 @@ Theorem C02_unary_binding :
   (match parse_eval false 200 (mkPst unary_tokens2 []) with POk (NLogic _ (NNot _ (NCmp _ (NInt _) (NInt _))) (NInt _)) _ => true | _ => false end) = true.
 Proof. exact unary_binding. Qed.
 Print Assumptions C02_unary_binding.
+
+(* how the evaluator combines operands, for every pair of operand expressions, state and context: the left operand is evaluated,
+   then the right one in the state the left one left, then the operator is applied to the two results -- each operand exactly once *)
+Theorem C02_arithmetic_evaluates_left_then_right : forall ped repl lim fuel t l r c,
+  ev_eval (evs_at ped repl lim (S fuel)) (NArith t l r) c =
+    (lr <- ev_eval (evs_at ped repl lim fuel) l c ;; rr <- ev_eval (evs_at ped repl lim fuel) r c ;; eval_arith t c lr rr).
+Proof. exact arithmetic_evaluates_left_then_right. Qed.
+Print Assumptions C02_arithmetic_evaluates_left_then_right.
+
+Theorem C02_comparison_evaluates_left_then_right : forall ped repl lim fuel t l r c,
+  ev_eval (evs_at ped repl lim (S fuel)) (NCmp t l r) c =
+    (lr <- ev_eval (evs_at ped repl lim fuel) l c ;; rr <- ev_eval (evs_at ped repl lim fuel) r c ;; eval_cmp t c lr rr).
+Proof. exact comparison_evaluates_left_then_right. Qed.
+Print Assumptions C02_comparison_evaluates_left_then_right.
+
+(* AND whose left operand is BOOLEAN FALSE yields FALSE in the state the left operand left: the right operand is not evaluated *)
+Theorem C02_and_with_a_false_left_operand_skips_the_right_one : forall ped repl lim fuel t l r c s s1 lr,
+  tt t = TAND -> ev_eval (evs_at ped repl lim fuel) l c s = (Ok lr, s1) -> dk (r_type lr) = KBool -> r_val lr = Some (PBool false) ->
+  ev_eval (evs_at ped repl lim (S fuel)) (NLogic t l r) c s = (Ok (res_of KBool (PBool false)), s1).
+Proof. exact and_with_a_false_left_operand_skips_the_right_one. Qed.
+Print Assumptions C02_and_with_a_false_left_operand_skips_the_right_one.
